@@ -42,6 +42,7 @@ import (
 	"sort"
 	"strconv"
 	"strings"
+	"sync"
 	"testing"
 	"time"
 	"unicode"
@@ -100,6 +101,10 @@ type Case struct {
 	Styles  []int    `json:"styles"`
 	JSONEsc int      `json:"json_esc,omitempty"` // 0 raw UTF-8, 1 \uXXXX for non-ASCII, 2 spaced
 	E2E     bool     `json:"e2e,omitempty"`
+	// Reload: the ingestor has already processed a bulk under an earlier mapping (one other
+	// keyword field) when the mapping provider switches to the case's mapping - a hot reload
+	// of the mapping file - and the document arrives
+	Reload bool `json:"reload,omitempty"`
 	// Excluded counts generator draws replaced because of a known finding.
 	Excluded int `json:"excluded,omitempty"`
 }
@@ -502,6 +507,25 @@ func (c *capture) StoreDocuments(_ context.Context, n int, docs, metas []byte) e
 	c.docs = append([]byte{}, docs...)
 	c.metas = append([]byte{}, metas...)
 	return nil
+}
+
+// reloadable: a mapping provider whose mapping can be replaced, as mappingprovider does when
+// the mapping file changes
+type reloadable struct {
+	mu sync.Mutex
+	m  seq.Mapping
+}
+
+func (p *reloadable) GetMapping() seq.Mapping {
+	p.mu.Lock()
+	defer p.mu.Unlock()
+	return p.m
+}
+func (p *reloadable) GetRawMapping() *seq.RawMapping { return nil }
+func (p *reloadable) set(m seq.Mapping) {
+	p.mu.Lock()
+	p.m = m
+	p.mu.Unlock()
 }
 
 type provider struct{ m seq.Mapping }
@@ -1101,11 +1125,15 @@ func runCase(c Case) (evid.Result, error) {
 	defer func() { conf.CaseSensitive = saved }()
 
 	cp := &capture{}
+	prov := &reloadable{m: mapping}
+	if c.Reload {
+		prov.m = seq.Mapping{"only_in_the_earlier_mapping": seq.NewSingleType(seq.TokenizerTypeKeyword, "", 0)}
+	}
 	ing := bulk.NewIngestor(bulk.IngestorConfig{
 		MaxInflightBulks:       1,
 		AllowedTimeDrift:       24 * time.Hour,
 		FutureAllowedTimeDrift: 24 * time.Hour,
-		MappingProvider:        provider{mapping},
+		MappingProvider:        prov,
 		MaxTokenSize:           c.MaxTok,
 		CaseSensitive:          c.CS,
 		PartialFieldIndexing:   c.Partial,
@@ -1113,6 +1141,21 @@ func runCase(c Case) (evid.Result, error) {
 		MetasZSTDCompressLevel: -1,
 		MaxDocumentSize:        4 << 20,
 	}, cp)
+	if c.Reload {
+		warm := false
+		if _, err := ing.ProcessDocuments(context.Background(), requestTime, func() ([]byte, error) {
+			if warm {
+				return nil, nil
+			}
+			warm = true
+			return []byte(`{"only_in_the_earlier_mapping":"x"}`), nil
+		}); err != nil {
+			return r.res, fmt.Errorf("harness: warm-up bulk: %v", err)
+		}
+		*cp = capture{}
+		prov.set(mapping)
+		r.lab["mapping-reloaded-before-the-document"] = true
+	}
 	sent := false
 	n, err := ing.ProcessDocuments(context.Background(), requestTime, func() ([]byte, error) {
 		if sent {
